@@ -31,6 +31,7 @@ type encSpec struct {
 	Odd  bool   `json:"odd"`
 	Arch int    `json:"arch"`
 	Str  string `json:"str"` // every string field of every message is set to this value
+	High int    `json:"high"` // > 0: an activity file with one session message that sets only the struct field of this index
 }
 
 type apiPool struct {
@@ -47,6 +48,17 @@ func (ap *apiPool) input(i int) []byte {
 }
 
 func (ap *apiPool) file(p *Profile, e encSpec) *fit.File {
+	if e.High > 0 {
+		f, _ := fit.NewFile(fit.FileTypeActivity, fit.NewHeader(fit.V20, false))
+		f.FileId = *fit.NewFileIdMsg()
+		f.FileId.Type = fit.FileTypeActivity
+		a, _ := f.Activity()
+		sm := fit.NewSessionMsg()
+		fv := reflect.ValueOf(sm).Elem().Field(e.High)
+		fv.SetUint(1000 + uint64(e.High))
+		a.Sessions = append(a.Sessions, sm)
+		return f
+	}
 	g := &fileGen{rng: newRng(e.Seed), p: p, density: 0.5, maxList: 3, long: e.Odd}
 	f := g.File(e.FT, e.K%2 == 0, -1, -1)
 	if e.Bad {
@@ -212,6 +224,19 @@ func buildAPIPool(c *Ctx, p *Profile, sch *Schema, dir string) *apiPool {
 	for k, ft := range []int{4, 4, 2, 2} {
 		ap.Enc = append(ap.Enc, encSpec{Seed: c.Seed*1000 + 500 + int64(k/2), FT: ft, K: k / 2, Arch: k % 2,
 			Str: []string{"left crank arm sensor \u20ac\u20ac", "abc"}[k%2]})
+	}
+	// messages that differ only in a field far down a long struct (session has
+	// more than 64 fields): nothing about one message's shape may be remembered
+	// for the next
+	{
+		st := reflect.TypeOf(fit.SessionMsg{})
+		n := 0
+		for i := st.NumField() - 1; i >= 64 && n < 3; i-- {
+			if k := st.Field(i).Type.Kind(); k == reflect.Uint16 || k == reflect.Uint32 {
+				ap.Enc = append(ap.Enc, encSpec{High: i, Arch: n % 2})
+				n++
+			}
+		}
 	}
 	// an Encode that fails part-way: later calls must not see anything of it
 	ap.Enc = append(ap.Enc, encSpec{Seed: c.Seed*1000 + 777, FT: 4, K: 1, Bad: true})
